@@ -822,11 +822,16 @@ pub fn explore(make: &dyn Fn() -> Instance, bound: u32, shard: usize, nshards: u
 }
 
 /// Re-executes a schedule twice and checks both observation logs are identical (determinism self-check).
-pub fn replay_check(make: &dyn Fn() -> Instance, choices: &[u8]) -> Result<Outcome, String> {
-    let a = run_once(make().bodies, choices, true);
-    let b = run_once(make().bodies, choices, false);
-    if a.log != b.log || a.terminal != b.terminal || a.choices() != b.choices() {
-        return Err(format!("replay divergence: two runs of the same schedule differ\n A: {:?} {}\n B: {:?} {}", a.terminal, fmt_log(&a.log), b.terminal, fmt_log(&b.log)));
+/// Returns the first run's outcome together with the verdict of *its own* instance (oracles may look at the objects of the run).
+pub fn replay_check(make: &dyn Fn() -> Instance, choices: &[u8]) -> Result<(Outcome, Vec<(String, String)>), String> {
+    let ia = make();
+    let a = run_once(ia.bodies, choices, true);
+    let va = (ia.check)(&a);
+    let ib = make();
+    let b = run_once(ib.bodies, choices, false);
+    let vb = (ib.check)(&b);
+    if a.log != b.log || a.terminal != b.terminal || a.choices() != b.choices() || va != vb {
+        return Err(format!("replay divergence: two runs of the same schedule differ\n A: {:?} {} {:?}\n B: {:?} {} {:?}", a.terminal, fmt_log(&a.log), va, b.terminal, fmt_log(&b.log), vb));
     }
-    Ok(a)
+    Ok((a, va))
 }
